@@ -279,3 +279,53 @@ mod tests {
         assert_eq!(result.len(), 1);
     }
 }
+
+#[cfg(ishape_rust_itree_verif)]
+impl<R, E: Expiration, V: ExpiredVal<E>> SegExpTree<R, E, V>
+where
+    i64: From<R>,
+{
+    /// Verification hook (read-only): number of storage places.
+    pub fn verif_places(&self) -> usize {
+        self.chunks.len()
+    }
+
+    /// Verification hook (read-only): the (value, place mask) copies stored at one place.
+    pub fn verif_copies_at(&self, place: usize) -> Vec<(V, u64)> {
+        self.chunks[place].buffer.iter().map(|e| (e.val, e.mask)).collect()
+    }
+
+    /// Verification hook (read-only): bucket of a coordinate, and the place / visit masks of a range.
+    pub fn verif_bucket(&self, value: i64) -> u32 {
+        self.layout.index(value)
+    }
+
+    pub fn verif_place_mask(&self, min: i64, max: i64) -> u64 {
+        self.layout.insert_mask(min, max)
+    }
+
+    pub fn verif_visit_mask(&self, min: i64, max: i64) -> u64 {
+        self.layout.intersect_mask(min, max)
+    }
+}
+
+/// Verification hooks (read-only wrappers around the private layout / mask functions).
+#[cfg(ishape_rust_itree_verif)]
+pub mod verif {
+    use crate::seg::heap::Heap32;
+    use crate::seg::layout::Layout;
+
+    pub fn place_mask(start: u32, end: u32) -> u64 {
+        Heap32::range_to_place_mask(start, end)
+    }
+
+    pub fn visit_mask(start: u32, end: u32) -> u64 {
+        Heap32::range_to_intersect_mask(start, end)
+    }
+
+    /// (bucket of `value`, number of places) for the domain [lo, hi], or None when no tree is built
+    pub fn layout(lo: i64, hi: i64, value: i64) -> Option<(u32, usize)> {
+        let l = Layout::new(lo, hi)?;
+        Some((l.index(value), l.count()))
+    }
+}
